@@ -110,6 +110,12 @@ func merge[EntityT entity.Interface](def Definition, wrapper func(e *Entity) Ent
 			errors.Wrapf(err, "remote %s data is invalid", def.Typename).Error())
 	}
 
+	// The ref must be named after the Entity it points to
+	if remoteEntity.Id() != id {
+		return entity.NewMergeInvalidStatus(id,
+			fmt.Sprintf("remote %s has the id %s, which doesn't match its ref", def.Typename, remoteEntity.Id()))
+	}
+
 	localRef := fmt.Sprintf("refs/%s/%s", def.Namespace, id.String())
 
 	// SCENARIO 1
